@@ -36,20 +36,32 @@ def applyMut (s : List Nat) (m : Mut) : List Nat × Mut :=
   let deleted := m.2.filter (fun x => s1.contains x)
   (s1.filter (fun x => !deleted.contains x), (added, deleted))
 
-/-- `reactive.set.replace` (repaired): the contents become `els`; reported: the elements that are
-new as added, the elements that are gone as deleted. -/
+/-- `reactive.set.replace` (repaired).  Its first action under the value mutex is a **private snapshot
+of its argument** (`newElements := ds.NewSet(elements.ToSlice()...)`); `els` is that snapshot, and
+everything after it — the two filters and `value.Replace` — reads only the snapshot.  The contents
+become `els`; reported: the elements that are new as added, the elements that are gone as deleted. -/
 def replaceMut (s els : List Nat) : List Nat × Mut :=
   (els, (els.filter (fun x => !s.contains x), s.filter (fun x => !els.contains x)))
 
 /-- The unrepaired `replace`: every new element reported as added, every previous one as deleted. -/
 def replaceMutOld (s els : List Nat) : List Nat × Mut := (els, (els, s))
 
+/-- `replace` *without* the private snapshot reads its argument three times: `Filter` (what is new),
+`Has` (what is gone) and `Range` inside `value.Replace`.  If the argument changes in between — it is
+the set itself or a view of it (`value.Replace` clears the contents before it ranges over the
+argument), or another goroutine mutates it — the three reads differ and the report no longer
+matches the change. -/
+def replaceMutLive (s read1 read2 read3 : List Nat) : List Nat × Mut :=
+  (read3, (read1.filter (fun x => !s.contains x), s.filter (fun x => !read2.contains x)))
+
 def Mut.isEmpty (m : Mut) : Bool := m.1.isEmpty && m.2.isEmpty
 
 inductive SetOp where
   | apply (m : Mut)                      -- Apply, Add, AddAll, Delete, DeleteAll
   | compute (g : List Nat → Mut)         -- Compute(mutationFactory)
-  | replace (els : List Nat)
+  | replace (els : List Nat)              -- Replace(arg); `els` = the private snapshot of `arg`
+  | replaceView (g : List Nat → List Nat) -- Replace(arg) where `arg` is the set itself or a view derived from it:
+                                          -- the snapshot is `g` of the contents at the moment it is taken
 
 def setUpd (s : List Nat) : SetOp → Upd (List Nat) Mut
   | .apply m =>
@@ -60,6 +72,7 @@ def setUpd (s : List Nat) : SetOp → Upd (List Nat) Mut
       else .change r.1 r.2
   | .compute g => let r := applyMut s (g s); .change r.1 r.2
   | .replace els => let r := replaceMut s els; .change r.1 r.2
+  | .replaceView g => let r := replaceMut s (g s); .change r.1 r.2
 
 def setObj (init : List Nat) : Obj (List Nat) Mut where
   WOp := SetOp
